@@ -64,7 +64,7 @@ class Evaluator(Operator):
         # simple parallel loop
         Parallel(n_jobs=self.algorithm.options["max_processes"], verbose=1, require='sharedmem')(
             delayed(self.job.evaluate)(individual)
-            for individual in individuals)
+            for individual in individuals if individual.state == individual.State.EMPTY)
 
     def evaluate_scalar(self, vector):
         individual = Individual(list(vector))
